@@ -70,6 +70,18 @@ CHAINS = {
 # chained converters in 3D are emitted as compositions (after the structural identity has been checked)
 N3_BASE = [p for p in PAIRS if "%s__%s" % p not in CHAINS]
 
+# N = 2: the directly proved pairs are spread over four modules (built in parallel)
+N2_GROUPS = {
+    "a": ["DTAU_DF__ABAQUS", "DTAU_DF__DTAU_DDF", "DS_DF__DS_DC", "DTAU_DF__DPK1_DF", "C_TRUESDELL__SPATIAL_MODULI",
+          "SPATIAL_MODULI__C_TAU_JAUMANN"],
+    "b": ["DTAU_DF__C_TAU_JAUMANN", "DSIG_DF__DSIG_DDF", "DPK1_DF__DSIG_DF", "DTAU_DDF__DTAU_DF", "C_TAU_JAUMANN__ABAQUS",
+          "DS_DEGL__DS_DC"],
+    "c": ["DPK1_DF__DS_DEGL", "ABAQUS__DTAU_DF", "DS_DF__DS_DEGL", "DSIG_DF__DTAU_DF", "SPATIAL_MODULI__ABAQUS",
+          "SPATIAL_MODULI__C_TRUESDELL", "C_TAU_JAUMANN__SPATIAL_MODULI"],
+    "d": ["SPATIAL_MODULI__DS_DEGL", "DTAU_DF__DS_DF", "C_TAU_JAUMANN__DTAU_DF", "DSIG_DDF__DSIG_DF", "ABAQUS__SPATIAL_MODULI",
+          "ABAQUS__C_TAU_JAUMANN", "DS_DC__DS_DEGL"],
+}
+
 STRESS_UNITS = ["det", "invert", "dJ", "rightCauchyGreen", "greenLagrange", "unsyme", "push_forward",
                 "cauchy_to_pk1", "pk1_to_cauchy", "cauchy_to_pk2", "pk2_to_cauchy", "corot_to_pk2", "pk2_to_corot"]
 
@@ -313,52 +325,55 @@ def gen_lean(ck, units, by, chain_ok):
         ck.write_gen("TfelVerif/C23/%s.lean" % name, txt)
         mods.append("TfelVerif.C23." + name)
     w("GenStress", [by["N%d_%s" % (n, s)] for n in (1, 2, 3) for s in STRESS_UNITS])
-    for n in (1, 2):
-        w("GenN%d" % n, [by["N%d_%s__%s" % (n, a, b)] for a, b in PAIRS])
+    w("GenN1", [by["N1_%s__%s" % (a, b)] for a, b in PAIRS])
+    for g, names in N2_GROUPS.items():
+        w("GenN2%s" % g, [by["N2_" + nm] for nm in names])
     for a, b in N3_BASE:
         w("GenN3_%s__%s" % (a, b), [by["N3_%s__%s" % (a, b)]])
-    # chained converters in 3D: emitted as the composition of their parts when structurally identical,
+    # chained converters (N = 2, 3): emitted as the composition of their parts when structurally identical,
     # else as their own (large) DAG
-    imports = ["import TfelVerif.C23.Spec", "import TfelVerif.C23.GenStress"]
-    body = []
     bnd = "{K : Type} [Field K] (c c3 : K) (fn : Fns K) (k : Nat → Nat → K) (f g s : Nat → K)"
-    own = []
-    for comp, stages in CHAINS.items():
-        if not chain_ok.get("N3_" + comp):
-            own.append(by["N3_" + comp])
-            continue
-        expr = None
-        for name, feed in stages:
-            if name == "invert@g":
-                expr = ("g", "(vecOf (N3_invert_r c c3 fn g))")
+    for n in (2, 3):
+        imports = ["import TfelVerif.C23.Spec", "import TfelVerif.C23.GenStress"]
+        body = []
+        own = []
+        for comp, stages in CHAINS.items():
+            if not chain_ok.get("N%d_%s" % (n, comp)):
+                own.append(by["N%d_%s" % (n, comp)])
                 continue
-            imp = "import TfelVerif.C23.GenN3_%s" % name
-            if name in CHAINS:
-                imp = None
-            if imp and imp not in imports:
-                imports.append(imp)
-            kk, gg = "k", "g"
-            if expr is not None:
-                if expr[0] == "g":
-                    gg = expr[1]
-                else:
-                    kk = "(matOf %s)" % expr[1]
-            expr = ("k", "(N3_%s_r c c3 fn %s f %s s)" % (name, kk, gg))
-        body.append("/-- `%s` is written in the source as the chain %s; the traced DAG of the composite is\nstructurally identical to this composition (checked on every run by harness/C23/struct23.py). -/\n"
-                    "noncomputable def N3_%s_r %s : List (List K) :=\n  %s\n" % (
-                        comp, " ; ".join(s for s, _ in stages), comp, bnd, expr[1][1:-1]))
-    txt = "-- GENERATED by checks/C23.py from /repo's current sources. Do not edit.\n" + "\n".join(imports) + \
-        "\nset_option linter.all false\nnamespace TfelVerif.C23.Gen\nopen TfelVerif TfelVerif.C23\n\n" + "\n".join(body) + \
-        "\nend TfelVerif.C23.Gen\n"
-    if own:
-        w("GenN3Own", own)
-        txt = txt.replace("import TfelVerif.C23.GenStress", "import TfelVerif.C23.GenStress\nimport TfelVerif.C23.GenN3Own")
-    ck.write_gen("TfelVerif/C23/GenN3Chains.lean", txt)
-    mods.append("TfelVerif.C23.GenN3Chains")
+            expr = None
+            for name, feed in stages:
+                if name == "invert@g":
+                    expr = ("g", "(vecOf (N%d_invert_r c c3 fn g))" % n)
+                    continue
+                if name not in CHAINS:
+                    imp = "import TfelVerif.C23.GenN3_%s" % name if n == 3 else \
+                        "import TfelVerif.C23.GenN2%s" % [g for g, v in N2_GROUPS.items() if name in v][0]
+                    if imp not in imports:
+                        imports.append(imp)
+                kk, gg = "k", "g"
+                if expr is not None:
+                    if expr[0] == "g":
+                        gg = expr[1]
+                    else:
+                        kk = "(matOf %s)" % expr[1]
+                expr = ("k", "(N%d_%s_r c c3 fn %s f %s s)" % (n, name, kk, gg))
+            body.append("/-- `%s` is written in the source as the chain %s; the traced DAG of the composite is\nstructurally identical to this composition (checked on every run by harness/C23/struct23.py). -/\n"
+                        "noncomputable def N%d_%s_r %s : List (List K) :=\n  %s\n" % (
+                            comp, " ; ".join(st for st, _ in stages), n, comp, bnd, expr[1][1:-1]))
+        txt = "-- GENERATED by checks/C23.py from /repo's current sources. Do not edit.\n" + "\n".join(imports) + \
+            "\nset_option linter.all false\nnamespace TfelVerif.C23.Gen\nopen TfelVerif TfelVerif.C23\n\n" + "\n".join(body) + \
+            "\nend TfelVerif.C23.Gen\n"
+        if own:
+            w("GenN%dOwn" % n, own)
+            txt = txt.replace("import TfelVerif.C23.GenStress", "import TfelVerif.C23.GenStress\nimport TfelVerif.C23.GenN%dOwn" % n)
+        ck.write_gen("TfelVerif/C23/GenN%dChains.lean" % n, txt)
+        mods.append("TfelVerif.C23.GenN%dChains" % n)
     return mods
 
 
-PROPS = (["TfelVerif.C23.PropsStress", "TfelVerif.C23.PropsN1", "TfelVerif.C23.PropsN2"]
+PROPS = (["TfelVerif.C23.PropsStress", "TfelVerif.C23.PropsN1"]
+         + ["TfelVerif.C23.PropsN2%s" % g for g in N2_GROUPS] + ["TfelVerif.C23.PropsN2Chains"]
          + ["TfelVerif.C23.PropsN3_%s__%s" % p for p in N3_BASE] + ["TfelVerif.C23.PropsN3Chains"])
 
 
